@@ -33,6 +33,18 @@ def gen(tier, rng):
                     scns.append(igz.scenario(len(scns), api, list(st), wrap=mode, calls=calls, tail_ai=ta, tail_ao=to, cap=400000, mem=(k + j) % 3, prefill=j % 3,
                                              meta={"plan": "+".join(plan), "cpu": cpu}))
             k += 1
+    # the decoder told the window size (hist_bits 9..14; 15 and 0 mean the full window): a stream whose distances fit must decode unchanged
+    # (the spec knows each stream's largest distance; beyond the declared window a refusal is excused, a wrong success is not)
+    k2 = 0
+    for plan, raw in streams:
+        if len(raw) > 9000: continue
+        try: plain = inflfam.py_inflate(raw)
+        except Exception: plain = b""
+        for hb in ([9, 12, 15] if tier == "quick" else [9, 10, 11, 12, 13, 14, 15]):
+            mode = [0, 1, 3][k2 % 3]; st = inflfam.wrap_stream(mode, raw, plain); k2 += 1
+            for api, calls, ta, to in [("inflate_stateless", [[len(st), 1 << 20, 0, 0]], 1 << 20, 1 << 20), ("inflate", [], [1 << 20, 7, 64][k2 % 3], [1 << 20, 300, 9][k2 % 3])]:
+                scns.append(igz.scenario(len(scns), api, list(st), wrap=mode, hist_bits=hb, calls=calls, tail_ai=ta, tail_ao=to, cap=400000, mem=k2 % 3,
+                                         meta={"plan": "+".join(plan) + ":hist_bits", "cpu": inflfam.KERNEL_CPUS[k2 % 3]}))
     # large streams of short-code blocks (multi-symbol lookup entries) around the decoder's 64 KiB staging boundary: (a) the first call's input
     # ends at every byte near the place where the output reaches 65536 (input runs out inside a symbol exactly when the staging buffer fills),
     # (b) whole input with the first output buffer ending at, just before and just after a block end beyond 64 KiB
